@@ -95,3 +95,8 @@ pub struct Sd {}
 #[unit(Sf_Milli, "m/c", MILLI, 0.001)]
 #[unit(Sf_Kilo, "k/c", KILO, 1000)]
 pub struct Sf {}
+
+// the two very large types live in their own file: the kernel-evaluated theorems over the synthetic
+// definitions (`Gen.Synth.items`) do not need them, the correspondence does
+mod big;
+pub use big::*;
